@@ -44,22 +44,27 @@ PROPS = {
                         'setRuleResult / key table contents (U-db units)', 'that continued builds return clean results (lemma L1)'],
     },
     'C05': {
-        'units': ['engine', 'engine_build'],
+        'units': ['engine', 'engine_build', 'engine_cancel'],
         'design_ref': 'DESIGN.md section 4, C05',
         'claim': 'build() returns the empty value whenever the task loop failed, the build was already cancelled or the database could not be locked; '
                  'the execution queue is released under its mutex on every path, the engine is never left busy, resetForBuild clears the flag under '
-                 'the mutex; setCancelled resets only the state; a failed or cancelled build still hands its epoch to the database before commit',
-        'not_decided': ['cancelRemainingTasks (drain loop) and the "cancelled rule is re-run" clause (candidate finding F13, not under contract yet)',
-                        'delivery from foreign threads, hangs (liveness of the drain)', 'the BuildSystemFrontend / lane queue path'],
+                 'the mutex; setCancelled resets only the state; a failed or cancelled build still hands its epoch to the database before commit; '
+                 'cancelRemainingTasks: after the drain nothing is outstanding, every queue and the task table are empty, every rule that had a task or was '
+                 'being scanned is Incomplete, a rule cancelled in progress reads as never built (so the next scan re-runs it), no result is written to '
+                 'the database, both mutexes released (partial correctness of the drain loop)',
+        'not_decided': ['delivery from foreign threads, hangs (termination of the drain loop depends on other threads reporting)',
+                        'the BuildSystemFrontend / lane queue path'],
     },
     'C06': {
-        'units': ['engine', 'engine_build'],
+        'units': ['engine', 'engine_build', 'engine_cancel', 'engine_pool'],
         'design_ref': 'DESIGN.md section 4, C06',
         'claim': 'task protocol automaton on the Task stubs (start once, prior value once after start and only for the same rule definition), ready queue '
                  'receives a task exactly when its wait count reaches zero, finished tasks are queued under finishedTaskInfosMutex and the loop is notified '
-                 'afterwards, parked scan/input requests are all woken, lock discipline of taskInfos',
+                 'afterwards, parked scan/input requests are all woken, lock discipline of taskInfos; the blocking step of the engine loop and the '
+                 'cancellation drain wait only with the mutex held and the finished queue observed empty under it, and the loop iterates again after '
+                 'blocking; a recycled scan record is empty (free list invariant of newRuleScanRecord/freeRuleScanRecord)',
         'not_decided': ['that all completion orders give the same values (a whole-build, all-schedules statement)', 'data-race freedom in general, deadlock',
-                        'the provide/ready/finish segments of executeTasks'],
+                        'the other phases of executeTasks (input requests, finished inputs, ready, finished tasks, cycle resolution)'],
     },
     'C08': {
         'units': ['extcmd', 'fileinfo'],
